@@ -125,6 +125,9 @@ def cases(chk):
             yield "config", {"fmt": fmt, "how": how, "cfg": {"phone": "491234", "cc": 49, "client_static_keypair": "11" * 64, "pushname": "yo"}}
     yield "config", {"fmt": "keyval", "how": "profile-libsave", "cfg": {"phone": "491234", "cc": 49, "pushname": "yo"}}
     yield "config", {"fmt": "json", "how": "profile-libsave", "cfg": {"phone": "491234", "cc": 49, "pushname": "yo"}}
+    for fmt in ("json", "keyval"):
+        for via in ("profile", "manager"):
+            yield "config", {"fmt": fmt, "how": "profile-both", "via": via, "cfg": {"phone": "491234", "cc": 49, "client_static_keypair": "33" * 64, "pushname": "both"}}
     # text values that stress the file encoding: astral characters, Latin-1, an unpaired surrogate (JSON escapes it); saved through the
     # library, loaded again here AND by a process that runs with the C locale
     for how in ("profile-libsave", "dest", "profile"):
@@ -157,7 +160,9 @@ def cases(chk):
         yield "keyval-raw", {"text": "\n".join(lines)}
     for _ in range(chk.scale(200, 6000)):
         fmt = r.choice(["json", "keyval"])
-        yield "config", {"fmt": fmt, "how": r.choice(["path-ext", "path-noext", "profile", "fresh-profile", "dest", "profile-resave"]), "cfg": gen_config(r, fmt)}
+        how = r.choice(["path-ext", "path-noext", "profile", "fresh-profile", "dest", "profile-resave", "profile-both"])
+        # (a profile holding both files is saved in whichever format the library prefers: values from the key=value format's domain)
+        yield "config", dict({"fmt": fmt, "how": how, "cfg": gen_config(r, "keyval" if how == "profile-both" else fmt)}, **({"via": r.choice(["profile", "manager"])} if how == "profile-both" else {}))
 
 
 def nontrivial(stream, case):
@@ -256,6 +261,25 @@ def run_config(chk, case):
                 f.write(cm.config_to_str(oldcfg, stype))
             YowProfile(name).write_config(cfg)
             loaded = YowProfile(name).config
+        elif how == "profile-both":
+            # a profile that holds a file in BOTH formats (left by an earlier library version, or by an explicit save in the other format), then
+            # the library's own plain save: whichever file the save goes to, loading by profile name must read that one
+            from yowsup.profile.profile import YowProfile
+            os.makedirs(pdir, exist_ok=True)
+            oldcfg = build_config({"phone": "491111", "cc": 49, "client_static_keypair": "aa" * 64, "pushname": "old"})
+            older = build_config({"phone": "491111", "cc": 49, "client_static_keypair": "ab" * 64, "pushname": "older"})
+            first, second = ((".json", cm.TYPE_JSON), (".yo", cm.TYPE_KEYVAL))[::1 if fmt == "json" else -1]
+            for (e_, t_), c_ in ((first, older), (second, oldcfg)):
+                with open(os.path.join(pdir, "config" + e_), "w") as f:
+                    f.write(cm.config_to_str(c_, t_))
+            if case.get("via", "profile") == "profile":
+                YowProfile(name).write_config(cfg)
+                loaded = YowProfile(name).config
+            else:
+                cm.save(name, cfg)
+                loaded = cm.load(name)
+            want = canon(cfg, True)
+            fmt = "keyval"
         elif how == "dest":
             os.makedirs(pdir, exist_ok=True)
             path = os.path.join(pdir, "saved" + ext)
